@@ -12,6 +12,7 @@ LEVEL_NOTE = [
     "C02_full (every operator of the violation catalogue of DESIGN §4.2, at every applicable site of every conforming program, yields its code on the edited line) is NOT proved. Proved fragments (C02.v82_line_too_long, counters_fire, verdict_error and by import C13.reject_no_header, C14.*): the rule emits the code when the statement it is handed contains the pattern — for line length, header, include guard and the four counters; verdict and exit status follow from C04 once an Error-level diagnostic exists",
     "end to end, for EVERY rule table (C02.ternary_e2e / ternary_sound, C03.long_line_reported): in every file that reaches a verdict each `?` token gets TERNARY_FBIDDEN at its position and each over-long line ending in a newline token gets LINE_TOO_LONG — CheckTernary and CheckLineLen run after every matched primary and the statements tile the token list (C07); tie: `always` stream (source -> model lexer -> engine replaying the observed decisions -> the two checks, compared with what the real rules emitted)",
     "C02.trailing_space_e2e (V01): for every rule table a trailing blank run starting with a SPACE gets SPC_BEFORE_NL at that SPACE (CheckSpacing ported completely; loop reachability lemma); tie: `always` stream incl. random blank-space perturbations",
+    "C02.many_instr_e2e / many_instr_sound (V45): a statement matched by one of the nine primaries after which the registry runs CheckManyInstructions (dependency list regenerated from the real registry) whose first token is not the first thing on its line — stated on the raw text via C09.column_one_iff_line_start — gets TOO_MANY_INSTR there, and the rule reports nowhere else; tie: `always` stream",
     "decision per (program, operator, site): the catalogue oracle runs the real pipeline on the edited program and looks for the operator's code on the edited line (harness/gen/mutate.py: 90 operators, validated on the unchanged tool; site classes where the tool is silent are listed in mutate.INCONSISTENT, recorded as known findings and replayed on every run)",
 ]
 PARTIAL = [
